@@ -26,6 +26,19 @@ tabs, bytes that are not UTF-8, NUL, blank / scalar / list documents); the verdi
 parameter (C17's `configure` table: refused in whatever format => 141); a stratified selection (format x corruption x verdict, the
 refused ones first, every format in rotation) goes through the real CLI paired with the API sequence.
 
+Multi-file projects are a stream too (`project_stream`): generated from an import graph — files in sub-directories, imports spelled
+relative / through `..` (also where none is needed) / from the working directory / through an include directory / absolutely, one file
+reached under several spellings (diamonds), a back edge (circular import), a dangling import — so the class of the project and with it
+the documented status (0 / 150 / 2, Lean `specProject`) is known by construction and does not come from the API run; all of them go
+through the in-process API, a stratified selection (those off their class first) through the real CLI: status of the class, one C++
+header per declaration of every file, every file listed once in the report, CLI = API.
+
+`-o` values are a stream (`option_value_cases`): for the string- and path-typed keys values from the whole alphabet (`=`, `:`, `,`,
+blanks, `#`, quotes, brackets, non-ASCII, leading / trailing dots, the empty text; kept inside the workspace); the options dictionary
+of the equivalent API call is what the texts denote by the documented format (value = everything after the first `=`), computed by the
+generator; the CLI's files — anywhere in the workspace, not only below `out/` — and status are compared with the API run on that
+dictionary, and the model's reading of the texts (`foldOptions`) with the dictionary.
+
 Specification on the implementation's observations (Lean op `c19.spec` = `specExit`): never a traceback; the exit status is 0
 exactly when the API sequence ran through, otherwise the documented code of its first exception (2 for a command line click
 refuses); the first message names the file and the (line, column) of the first reported error — for a configuration file its decoder
@@ -59,6 +72,7 @@ THEOREMS = [_T + n for n in [
     "cli_eq_api", "cli_unlisted_target_generates_nothing",
     "front_recorded_error_reported", "front_syntax_error_exit", "front_crash_only_unrecorded",
     "malformed_config_exit", "config_directory_or_missing_exit",
+    "project_failure_exit", "project_valid_passes_front", "cli_option_value_verbatim",
 ]]
 LEVEL = "proof"
 TRUSTED = [
@@ -630,6 +644,353 @@ def broken_config_cases(ctx) -> list[dict]:
     return cases
 
 
+# --------------------------------------------------------------------------------------------
+# stream of multi-file projects (the IDL input of a real invocation is a *project*: imports in sub-directories, `..` spellings, one
+# file reached under several spellings, include directories, cycles, dangling imports)
+# --------------------------------------------------------------------------------------------
+# A project is generated from its import graph, so its class is known by construction, independently of the implementation:
+# `valid` (acyclic, every import resolves: status 0, every declaration of every file generated once, every file listed once in the
+# report), `cycle` (one back edge: status 150, IDL parsing error at the directive), `missing` (one dangling import: status 2).
+# Every import is spelled in one of the ways a path can be written (`SPELLINGS`); the generator checks with the documented search
+# order (as written from the working directory, next to the importing file, include directories) that the spelling denotes the
+# intended file. All projects go through the in-process API (level 1); a stratified selection — the ones whose outcome is not the
+# one of their class first — through the real CLI paired with the API sequence, like every other invocation.
+
+PROJECT_DIRS = ["", "", "common", "feature", "feature/detail", "lib", "inc/lib", "inc"]
+SPELLINGS = ["dotdot", "updown", "cwdup", "rel", "rel", "dot", "cwd", "inc", "inc", "abs"]
+PROJECT_CODE = {"valid": 0, "cycle": 150, "missing": 2}
+
+
+def _walk(files, dirs, base: str, path: str):
+    """follow `path` from directory `base` of the project the way the file system does -> the file reached | None"""
+    cur = [c for c in base.split("/") if c]
+    if path.startswith("{WS}/"):
+        cur, path = [], path[5:]
+    elif path.startswith("/"):
+        return None
+    comps = path.split("/")
+    for i, c in enumerate(comps):
+        last = i == len(comps) - 1
+        if c in ("", "."):
+            if last:
+                return None
+            continue
+        if c == "..":
+            if not cur or last:
+                return None             # leaves the project / denotes a directory
+            cur.pop()
+            continue
+        cur.append(c)
+        p = "/".join(cur)
+        if last:
+            return p if p in files else None
+        if p not in dirs:
+            return None
+    return None
+
+
+def resolve_import(files, dirs, importer_dir: str, inc_dirs, path: str):
+    """the documented search order: as written (from the working directory), next to the importing file, the include directories"""
+    for base in [""] + [importer_dir] + list(inc_dirs):
+        t = _walk(files, dirs, base, path)
+        if t is not None:
+            return t
+    return None
+
+
+def spell_import(kind: str, importer_dir: str, target: str, inc_dirs):
+    """the text of an `@import` of `target` (path from the project root) written in a file of `importer_dir`; None: not expressible"""
+    import posixpath
+    rel = posixpath.relpath(target, importer_dir or ".")
+    if kind == "rel":
+        return rel
+    if kind == "dot":
+        return "./" + rel
+    if kind == "dotdot":     # out of the importer's directory and back in: a `..` segment also where none is needed
+        return f"../{posixpath.basename(importer_dir)}/{rel}" if importer_dir else None
+    if kind == "updown":     # into the first directory on the way, out again, then the path
+        first = rel.split("/")[0]
+        return f"{first}/../{rel}" if "/" in rel and first != ".." else None
+    if kind == "cwd":        # from the working directory (the first candidate of the search)
+        return target
+    if kind == "cwdup":
+        first = target.split("/")[0]
+        return f"{first}/../{target}" if "/" in target else None
+    if kind == "inc":
+        for inc in inc_dirs:
+            if target.startswith(inc + "/"):
+                return target[len(inc) + 1:]
+        return None
+    if kind == "abs":
+        return "{WS}/" + target
+    raise ValueError(kind)
+
+
+def make_project(r: random.Random, intent: str) -> dict:
+    n = r.randint(2, 5)
+    inc_dirs = ["inc"] if r.random() < 0.45 else []
+    pool = [d for d in PROJECT_DIRS if inc_dirs or not d.startswith("inc")]
+    fdir = ["app" if r.random() < 0.2 else ""] + [r.choice(pool) for _ in range(n - 1)]
+    path = [(fdir[i] + "/" if fdir[i] else "") + ("main.djinni" if i == 0 else f"f{i}.djinni") for i in range(n)]
+    edges = []
+    for j in range(1, n):
+        edges += [(i, j) for i in sorted(r.sample(range(j), min(j, r.choice([1, 1, 2]))))]
+    if n >= 3 and r.random() < 0.5:        # a diamond: the last file is reached along two paths
+        edges = sorted(set(edges) | {(0, n - 1), (n - 2, n - 1)})
+    back = None
+    if intent == "cycle":
+        j = r.randrange(n)
+        anc, todo = {j}, [j]
+        while todo:
+            u = todo.pop()
+            for a, b in edges:
+                if b == u and a not in anc:
+                    anc.add(a)
+                    todo.append(a)
+        back = (j, r.choice(sorted(anc)))
+    files = {p: "" for p in path}
+    spare = r.random() < 0.3
+    if spare:
+        files["spare/f9.djinni"] = "t1 = record { w: i32; }\n"     # never imported: loading it would declare `t1` twice
+    dirs = {"/".join(p.split("/")[:k]) for p in files for k in range(1, len(p.split("/")))}
+    spelled, used = {}, {}
+    for (a, b) in edges + ([back] if back else []):
+        kinds = r.sample(SPELLINGS, len(SPELLINGS))
+        kinds.sort(key=lambda k: k in used.get(b, ()))          # a file with several importers: another spelling each time
+        for k in kinds:
+            text = spell_import(k, fdir[a], path[b], inc_dirs)
+            if text is not None and resolve_import(files, dirs, fdir[a], inc_dirs, text) == path[b]:
+                spelled[(a, b)] = (k, text)
+                used.setdefault(b, set()).add(k)
+                break
+        else:
+            spelled[(a, b)] = ("abs", "{WS}/" + path[b])
+    missing = None
+    if intent == "missing":
+        a = r.randrange(n)
+        gone = r.choice(["gone.djinni", "nowhere/gone.djinni", "../gone.djinni", "common/../gone.djinni", "./gone.djinni", "f1.djinni.bak"])
+        if resolve_import(files, dirs, fdir[a], inc_dirs, gone) is None:
+            missing = (a, gone)
+        else:
+            missing = (a, "gone_for_good.djinni")
+    decls = []
+    for i in range(n):
+        lines = [f'@import "{spelled[e][1]}"' for e in spelled if e[0] == i]
+        r.shuffle(lines)
+        if missing and missing[0] == i:
+            lines.insert(r.randrange(len(lines) + 1), f'@import "{missing[1]}"')
+        body = [f"t{i} = record {{ v: i32; }}", f"e{i} = enum {{ a; b; }}"]
+        decls += [f"t{i}", f"e{i}"]
+        refs = [b for a, b in edges if a == i]
+        if refs:
+            body.append(f"h{i} = record {{ " + " ".join(f"r{b}: t{b};" for b in refs) + " }")
+            decls.append(f"h{i}")
+        files[path[i]] = "\n".join(lines + body) + "\n"
+    return {"files": files, "root": path[0], "include_dirs": inc_dirs, "intent": intent, "decls": sorted(decls), "reach": sorted(path),
+            "meta": {"n": n, "edges": edges, "back": back, "missing": missing, "dirs": fdir, "spare": spare,
+                     "spellings": {f"{a}>{b}": list(v) for (a, b), v in spelled.items()}}}
+
+
+def project_stream(ctx) -> list[dict]:
+    out = []
+    for i in range(ctx.n(160, 2500)):
+        r = random.Random(f"{ctx.seed}/c19/project/{i}")
+        out.append(make_project(r, ["valid", "valid", "cycle", "missing"][i % 4]))
+    return out
+
+
+def project_optset(pj: dict):
+    if not pj["include_dirs"]:
+        return OPTION_SETS[0]
+    return ([f"generate.include_dirs=[{','.join(pj['include_dirs'])}]"], [(("generate", "include_dirs"), list(pj["include_dirs"]))])
+
+
+def project_parse(base: Path, pj: dict) -> dict:
+    """level 1: `API().configure(pydjinni.yaml, include_dirs).parse(root)` in-process on one project"""
+    import signal
+    import copy
+    warnings.filterwarnings("ignore")
+    d = base / "project"
+    shutil.rmtree(d, ignore_errors=True)
+    d.mkdir(parents=True)
+    write_files(d, pj["files"], ws_marker=True)
+    (d / "pydjinni.yaml").write_text(CONFIGS["pydjinni.yaml"]["text"])
+    cwd = os.getcwd()
+    os.chdir(d)
+
+    class Hang(BaseException):
+        pass
+
+    def on_alarm(*_):
+        raise Hang()
+    old = signal.signal(signal.SIGALRM, on_alarm)
+    signal.alarm(30)
+    try:
+        try:
+            from pydjinni import API
+            g = API().configure(path=Path("pydjinni.yaml"), options=copy.deepcopy(ref_fold(project_optset(pj)[1]))).parse(Path(pj["root"]))
+            out = {"kind": "ok", "decls": sorted(str(x.name) for x in g.defs)}
+        except Hang:
+            out = {"kind": "hang"}
+        except BaseException as e:  # noqa
+            out = cfgsys.classify(e)
+    finally:
+        signal.alarm(0)
+        signal.signal(signal.SIGALRM, old)
+        os.chdir(cwd)
+    shutil.rmtree(d, ignore_errors=True)
+    return out
+
+
+def status_of(o: dict) -> int:
+    """the exit status the documented handler gives an API outcome"""
+    if o["kind"] == "ok":
+        return 0
+    if o["kind"] == "app":
+        return o["code"]
+    if o["kind"] == "applist" and o["codes"]:
+        return o["codes"][0] if o["codes"][0] is not None else 1
+    return 1
+
+
+def project_cases(ctx) -> list[dict]:
+    """level 1: every project of the stream through the in-process API; level 2 (returned): command lines for a stratified selection —
+    first the projects whose API outcome is not the one of their class, then one per (class, `..` spelled?, root in a sub-directory?,
+    include directory?, file reached under two spellings?) in rotation"""
+    stream = project_stream(ctx)
+    cfgsys.register("project", project_parse)
+    import time
+    t0 = time.time()
+    res = cfgsys.run_pool(ctx.tmp, [("project", p) for p in stream], workers=14)
+    ctx.stats["project_stream_seconds"] = round(time.time() - t0, 1)
+    groups: dict = {}
+    for i, (p, o) in enumerate(zip(stream, res)):
+        if o.get("kind") == "harness-error":
+            raise RuntimeError(f"harness error: {o}")
+        sp = p["meta"]["spellings"]
+        dotdot = any(".." in t for _, t in sp.values())
+        multi = {}
+        for k, (kind, _) in sp.items():
+            multi.setdefault(k.split(">")[1], set()).add(kind)
+        two = any(len(v) > 1 for v in multi.values())
+        off = status_of(o) != PROJECT_CODE[p["intent"]] or (o["kind"] == "ok" and o["decls"] != p["decls"])
+        ctx.stat(f"project_{p['intent']}_api_{outcome_class(o).split('@')[0]}")
+        ctx.count(key=("project", p["intent"], dotdot, two, bool(p["include_dirs"]), "/" in p["root"], tuple(sorted({k for k, _ in sp.values()}))),
+                  nontrivial=True, sample={"class": p["intent"], "files": sorted(p["files"]), "spellings": sp, "api": outcome_class(o)})
+        groups.setdefault((0 if off else 1, p["intent"], dotdot, "/" in p["root"], bool(p["include_dirs"]), two), []).append(i)
+    ctx.stats["project_stream_inputs"] = len(stream)
+    ctx.stats["project_stream_classes"] = len(groups)
+    ctx.stats["project_stream_off_class"] = sum(len(v) for k, v in groups.items() if k[0] == 0)
+    def in_turn(ks):
+        """classes in turn (valid, cycle, valid, missing, …); within `valid` first the ordinary shape of a project with shared files:
+        a `..` spelling and a file reached under two spellings"""
+        ks = sorted(ks)
+        random.Random(f"{ctx.seed}/c19/project/select").shuffle(ks)
+        ks.sort(key=lambda k: not (k[1] == "valid" and k[2] and k[5]))
+        by_intent = {c: [k for k in ks if k[1] == c] for c in ("valid", "cycle", "missing")}
+        out = []
+        while any(by_intent.values()):
+            for c in ("valid", "cycle", "valid", "missing"):
+                if by_intent[c]:
+                    out.append(by_intent[c].pop(0))
+        return out
+    chosen = [groups[k][0] for k in in_turn(k for k in groups if k[0] == 0)][:ctx.n(6, 60)]
+    rest = in_turn(k for k in groups if k[0] == 1)
+    budget = len(chosen) + ctx.n(14, 240)
+    depth = 0
+    while len(chosen) < budget and any(len(groups[k]) > depth for k in rest):
+        for k in rest:
+            if len(groups[k]) > depth and len(chosen) < budget:
+                chosen.append(groups[k][depth])
+        depth += 1
+    out = []
+    for i in sorted(set(chosen)):
+        p = stream[i]
+        r = random.Random(f"{ctx.seed}/c19/project/cli/{i}")
+        case = make_case(p["root"], None, project_optset(p), r.choice([["cpp"], ["cpp"], ["cpp", "yaml"], ["yaml", "cpp"]]), r.random() < 0.25)
+        case["files"] = p["files"]
+        case["ws_marker"] = True
+        case["project"] = {k: p[k] for k in ("intent", "decls", "reach", "root", "meta")}
+        case["label"] = f"project/{i}/{p['intent']}"
+        out.append(case)
+    return out
+
+
+# --------------------------------------------------------------------------------------------
+# stream of `-o key=value` options whose value is any text (the property quantifies over ALL `-o` lists)
+# --------------------------------------------------------------------------------------------
+# The documented format is `key=value`: the key is the text before the FIRST `=`, the value everything after it (a value of the
+# form `[a,b]` is a list). The generator chooses (key path, value text) and spells the option; what the option denotes — the
+# options dictionary of the equivalent API call — is computed here from that reading (`ref_value`), never by the implementation.
+# Keys: the string- and path-typed settings; values: the whole alphabet (`=`, `:`, `,`, blanks, `#`, quotes, brackets, non-ASCII,
+# leading / trailing dots and blanks, the empty text), kept inside the workspace when they are paths.
+
+VALUE_KEYS = [(("generate", "cpp", "out"), "path", ["cpp"]), (("generate", "yaml", "out"), "path", ["yaml"]),
+              (("generate", "list_processed_files"), "file", ["cpp"]), (("generate", "include_dirs"), "list", ["cpp"]),
+              (("generate", "cpp", "header_extension"), "text", ["cpp"]), (("generate", "cpp", "namespace"), "text", ["cpp"]),
+              (("generate", "java", "package"), "text", ["java"]), (("generate", "java", "out"), "path", ["cpp", "java"])]
+EQ_VALUES = ["build/mode=debug/cpp", "a=b=c", "cfg=release", "=", "=x", "x=", "==", "k=v/k2=v2"]
+FIXED_VALUES = ["", " ", " lead", "trail ", "a b", "#hash", "a#b", '"q"', "it's", "é€", ".hidden", "trail.", "...", "..x", "x..", "a,b", "a:b",
+                "key: value", "- item", "[x", "x]", "{a: b}", "null", "true", "~", "0", "1.5", "a\tb", "$HOME", "%TEMP%", "a;b", "a|b", "*", "?",
+                "a\\b", "`x`", "<x>", "a&b", "(x)", "üñí", "‮", "日本"]
+VALUE_ATOMS = ["=", ":", ",", " ", "#", '"', "'", "é", "€", ".", "x", "mode", "debug", "1", "-", "+", "@", "%", "&", ";", "(", ")", "[", "]", "{", "}",
+               "*", "?", "!", "~", "\\", "$", "`", "|", "<", ">", "/", "ü", "_"]
+
+
+def ref_value(text: str):
+    """the value a `-o` text denotes: `[a,b]` is the list of its comma separated items, anything else the text itself"""
+    if text.startswith("[") and text.endswith("]"):
+        return text[1:-1].split(",")
+    return text
+
+
+def inside_workspace(v: str) -> bool:
+    """a path value under which nothing is written outside the workspace"""
+    return not v.startswith(("/", "~")) and ".." not in v.split("/") and "\x00" not in v and len(v.encode()) < 200
+
+
+def rand_value(r: random.Random) -> str:
+    return "".join(r.choice(VALUE_ATOMS) for _ in range(r.randint(1, 8)))
+
+
+def option_value_cases(ctx) -> list[dict]:
+    n = ctx.n(18, 320)
+    out = []
+    for i in range(n):
+        r = random.Random(f"{ctx.seed}/c19/optval/{i}")
+        path, kind, targets = VALUE_KEYS[(i + ctx.seed) % len(VALUE_KEYS)]
+        # a third of the values contain `=`; the fixed lists rotate with the seed, the rest is drawn from the alphabet
+        m = i % 3
+        v = EQ_VALUES[(i // 3 + ctx.seed) % len(EQ_VALUES)] if m == 0 else (FIXED_VALUES[(i // 3 + 7 * ctx.seed) % len(FIXED_VALUES)] if m == 1 else rand_value(r))
+        if m == 0 and r.random() < 0.4:
+            v = rand_value(r) + "=" + rand_value(r)
+        if kind in ("path", "file", "list") and not inside_workspace(v):
+            v = "v" + v.replace("/", "_").replace("~", "-")[:60]
+        if kind == "path":
+            text = v if r.random() < 0.5 else "out/" + v
+        elif kind == "file":
+            text = ("out/" if r.random() < 0.5 else "") + v + r.choice([".json", ".json", ".yaml", ".toml", ".yml"])
+        elif kind == "list":
+            text = "[" + ",".join([v.replace(",", ";"), "inc"][:r.choice([1, 2])]) + "]"
+        else:
+            text = v
+        leaf = (path, ref_value(text))
+        no_file = r.random() < 0.3 and "java" not in targets
+        if no_file:
+            # everything by options: the base set of OPTION_SETS[10], the key under test last
+            texts = list(OPTION_SETS[10][0]) + [".".join(path) + "=" + text]
+            leaves = list(OPTION_SETS[10][1]) + [leaf]
+            case = make_case("ok.djinni", "None", (texts, leaves), ["cpp"], False)
+        else:
+            case = make_case("ok.djinni", None, ([".".join(path) + "=" + text], [leaf]), targets, False)
+        case["optval"] = {"key": ".".join(path), "kind": kind, "value": text}
+        case["label"] = f"optval/{i}/{'.'.join(path)}"
+        ctx.count(key=("optval", ".".join(path), "=" in text, tuple(sorted({c for c in text if not c.isalnum()}))[:6], no_file), nontrivial=True,
+                  sample={"option": ".".join(path) + "=" + text})
+        out.append(case)
+    return out
+
+
 def config_file_of(case: dict) -> dict | None:
     """the description of the configuration file an invocation names (None: no file)"""
     cfg = case["sem"]["config"]
@@ -642,11 +1003,13 @@ def config_file_of(case: dict) -> dict | None:
     return {"name": cfg, "missing": True}
 
 
-def write_files(d: Path, files: dict):
+def write_files(d: Path, files: dict, ws_marker: bool = False):
+    """`ws_marker`: the texts spell absolute paths into the workspace as `{WS}/…` (project stream)"""
     for name, v in files.items():
         p = d / name
+        p.parent.mkdir(parents=True, exist_ok=True)
         if isinstance(v, str):
-            p.write_text(v, newline="")
+            p.write_text(v.replace("{WS}", str(d)) if ws_marker else v, newline="")
         elif v.get("dir"):
             p.mkdir()
         else:
@@ -797,11 +1160,11 @@ def visit_class(o: dict) -> str:
 # running one case: CLI subprocess + in-process API sequence
 # --------------------------------------------------------------------------------------------
 
-def materialise(ws: Path, files: dict | None = None):
+def materialise(ws: Path, files: dict | None = None, ws_marker: bool = False):
     ws.mkdir(parents=True)
     for name, (text, _) in IDLS.items():
         (ws / name).write_text(text)
-    write_files(ws, files or {})
+    write_files(ws, files or {}, ws_marker)
     for name, spec in CONFIGS.items():
         cfgsys.write_file(ws, {"name": name, **spec})
     for g in GEN.values():
@@ -813,15 +1176,23 @@ def materialise(ws: Path, files: dict | None = None):
         (ws / extra / "stale.txt").write_text("left over from an earlier run\n")
 
 
-def tree_of(ws: Path) -> dict:
+def tree_of(ws: Path, before: dict | None = None) -> dict:
+    """{path: digest}: every file below `out/`, and — given the snapshot taken before the run — every file anywhere else in the
+    workspace that is new or changed (an output directory named by an option need not lie below `out/`)"""
     out = {}
-    base = ws / "out"
-    if base.exists():
-        for p in sorted(base.rglob("*")):
-            if p.is_file():
-                # generated files and the report name imported files by absolute path: compare modulo the workspace directory
-                out[str(p.relative_to(ws))] = hashlib.sha256(p.read_bytes().replace(str(ws).encode(), b"<ws>")).hexdigest()[:16]
+    for p in sorted(ws.rglob("*")):
+        if p.is_file() and not p.is_symlink():
+            rel = str(p.relative_to(ws))
+            # generated files and the report name imported files by absolute path: compare modulo the workspace directory
+            h = hashlib.sha256(p.read_bytes().replace(str(ws).encode(), b"<ws>")).hexdigest()[:16]
+            if rel.startswith("out/") or (before is not None and before.get(rel) != h):
+                out[rel] = h
     return out
+
+
+def snapshot(ws: Path) -> dict:
+    return {str(p.relative_to(ws)): hashlib.sha256(p.read_bytes().replace(str(ws).encode(), b"<ws>")).hexdigest()[:16]
+            for p in ws.rglob("*") if p.is_file() and not p.is_symlink()}
 
 
 def report_of(ws: Path):
@@ -844,8 +1215,9 @@ def run_case(base: Path, case: dict) -> dict:
     ws = base / "ws"
     shutil.rmtree(ws, ignore_errors=True)
     cli, api = ws / "cli", ws / "api"
-    materialise(cli, case.get("files"))
-    materialise(api, case.get("files"))
+    materialise(cli, case.get("files"), bool(case.get("ws_marker")))
+    materialise(api, case.get("files"), bool(case.get("ws_marker")))
+    before_cli, before_api = snapshot(cli), snapshot(api)
     env = dict(case["child_env"])
     for k in [k for k in env if k.lower().startswith(cfgsys.ENV_PREFIX)]:
         del env[k]
@@ -857,7 +1229,7 @@ def run_case(base: Path, case: dict) -> dict:
                "stderr": p.stderr[-600:], "stdout": p.stdout[-2500:], "first_error": first_error_text(p.stdout + p.stderr)}
     except subprocess.TimeoutExpired:
         obs = {"rc": None, "traceback": False, "stderr": "timeout", "stdout": "", "first_error": ""}
-    obs["tree"] = tree_of(cli)
+    obs["tree"] = tree_of(cli, before_cli)
     obs["report"] = report_of(cli)
 
     # the documented equivalent API sequence
@@ -919,7 +1291,7 @@ def run_case(base: Path, case: dict) -> dict:
             os.chdir(cwd)
             os.environ.clear()
             os.environ.update(saved)
-        a["tree"] = tree_of(api)
+        a["tree"] = tree_of(api, before_api)
         a["report"] = report_of(api)
     obs["api"] = a
     shutil.rmtree(ws, ignore_errors=True)
@@ -1015,7 +1387,9 @@ def model_request(case: dict, obs: dict) -> dict:
 
 
 def run(ctx):
-    ctx.coverage["rule"] = ("distinct = distinct command line (IDL x config x -o list x targets x --clean x malformation), and for the broken-IDL "
+    ctx.coverage["rule"] = ("multi-file project stream: distinct (class, `..` spelled, file under two spellings, include directory, root in a sub-directory, spelling kinds); "
+                            "`-o` value stream: distinct (key, `=` in the value, punctuation classes, with / without a configuration file); "
+                            "distinct = distinct command line (IDL x config x -o list x targets x --clean x malformation), and for the broken-IDL "
                             "stream through the in-process API distinct (mutation kind, mutated file, outcome class, visitor class); for the malformed-config stream "
                             "distinct (format, corruption kind, decoder verdict); "
                             "non-trivial = anything but the plain successful `generate ok.djinni cpp` / an input that is still accepted")
@@ -1038,6 +1412,8 @@ def run(ctx):
         cases = extra + cases
     cases += broken_idl_cases(ctx)
     cases += broken_config_cases(ctx)
+    cases += project_cases(ctx)
+    cases += option_value_cases(ctx)
     child_env = ctx.child_env()
     for c in cases:
         c["child_env"] = child_env
@@ -1058,6 +1434,11 @@ def run(ctx):
     spec_reqs = [spec_request(c, o) for c, o in zip(cases, results)]
     specs = ctx.driver.batch(spec_reqs)
     breaks = []
+    # what the model reads out of the `-o` texts vs what the generator meant them to denote (value = everything after the first `=`)
+    ov = [c for c in cases if c.get("optval")]
+    for c, a in zip(ov, ctx.driver.batch([{"op": "c17.options", "opts": c["sem"]["options"]} for c in ov])):
+        if a.get("kind") != "ok" or a.get("value") != c["sem"]["opt_dict"]:
+            breaks.append({"what": "foldOptions (-o texts) vs the options dictionary the texts denote", "args": c["args"], "model": a, "meant": c["sem"]["opt_dict"]})
     for c, o, m, sq, s in zip(cases, results, answers, spec_reqs, specs):
         evaluate(ctx, c, o, m, sq, s, breaks)
     ctx.stats["correspondence_breaks"] = len(breaks)
@@ -1141,7 +1522,8 @@ def spec_request(case, obs) -> dict:
     usage = click_refuses(sem)
     first_st = next((x for x in obs["api"]["stages"] if x["kind"] != "ok"), None)
     return {"op": "c19.spec", "usage": usage, "first": first, "code": obs["rc"] if obs["rc"] is not None and obs["rc"] >= 0 else 999,
-            "traceback": obs["traceback"], "first_pos": first_st.get("pos") if first_st and not malformed_opts else None}
+            "traceback": obs["traceback"], "first_pos": first_st.get("pos") if first_st and not malformed_opts else None,
+            **({"project": case["project"]["intent"]} if case.get("project") else {})}
 
 
 def brief(o):
@@ -1268,6 +1650,27 @@ def evaluate(ctx, case, obs, m, sq, s, breaks):
         if sem["idl"] not in text or not _re.search(r"at \(\d+, \d+\)", text):
             ctx.report("cli:diagnostic-without-position", f"the message for status {obs['rc']} does not name the IDL file and a (line, column) position",
                        {**rep, "impl": brief(obs), "stdout": obs["stdout"][-600:]})
+    pj = case.get("project")
+    if pj:
+        # a multi-file project: the class of its import graph (known by construction) decides the status — 0 with every declaration
+        # of every file generated once and every file listed once in the report; 150 for a circular import; 2 for a missing file
+        ps = s.get("project") or {}
+        ctx.stat(f"project_cli_{pj['intent']}_rc_{obs['rc']}")
+        if not ps.get("holds"):
+            ctx.report("cli:project-status-" + pj["intent"], f"a multi-file project of class '{pj['intent']}' ended with status {obs['rc']} instead of the documented {ps.get('code')}",
+                       {**rep, "project": pj["meta"], "impl": brief(obs), "first_message": obs["first_error"][:600]})
+            return
+        if pj["intent"] == "valid":
+            import posixpath
+            if "cpp" in sem["command"]["targets"]:
+                got = sorted(k[len("out/cpp/"):-len(".hpp")] for k in obs["tree"] if k.startswith("out/cpp/") and k.endswith(".hpp"))
+                if got != pj["decls"]:
+                    ctx.report("cli:project-outputs", "the generated C++ headers are not 'one per declaration of every file of the project'",
+                               {**rep, "project": pj["meta"], "headers": got, "declarations": pj["decls"]})
+            listed = sorted(posixpath.normpath(x[len("<ws>/"):] if x.startswith("<ws>/") else x) for x in ((obs["report"] or {}).get("parsed") or {}).get("idl", []))
+            if obs["report"] is not None and listed != pj["reach"]:
+                ctx.report("cli:project-report-inputs", "the report does not list every IDL file of the project exactly once",
+                           {**rep, "project": pj["meta"], "listed": listed, "files": pj["reach"]})
     if not s["holds"]:
         ctx.report("cli:exit-status", f"exit status {obs['rc']} is not the documented code of the first error of the equivalent API sequence "
                    f"({sq['first']})", {**rep, "impl": brief(obs), "spec": sq})
